@@ -4,7 +4,7 @@ from .. import hirx as H
 from ..flow import ExprBuilder, mentions_field, mentions_call, is_call, is_field, walk, show, cond_switches, \
     guarded, seed_after_call, Sccp, I, V, X, strip, value_set
 from ..graph import field_rw, classify_result
-from ..facts import op_const, op_place, fields_of_place
+from ..facts import op_const, op_place, fields_of_place, place_key
 from .. import wire as W
 from . import c05, c06, c12
 
@@ -276,3 +276,26 @@ def run(ctx):
             r.ok("strip|root", "strip removes the gitignore's root prefix", fn=g)
         else:
             r.bad("strip|root", "Gitignore::strip no longer removes the ignore file's directory prefix", fn=g, construct="strip")
+        # whenever the root IS a prefix of the candidate, the candidate is replaced by the remainder: what is left of it may or
+        # may not begin with a slash (the root of the top-level matcher is spelled as the user typed it, `sub/` included)
+        for c in roots[:1]:
+            a = op_place(c.args[1])
+            base = None
+            for d in g.defs().get(a["l"], []) if a is not None else []:
+                if d[0] == "assign" and d[3]["rv"]["k"] == "ref":
+                    base = d[3]["rv"]["place"]["l"]
+            rets = [bb for bb, b in enumerate(g.blocks) if b["term"]["k"] == "return"]
+            if base is None or not rets:
+                r.bad("strip|applied", "anchor-missing: candidate operand of the root strip_prefix", fn=g)
+                continue
+            sx = seed_after_call(g, c, V("Some", None))
+            writes = {bb for bb, j_, st in g.stmts() if st["k"] == "assign" and st["place"]["l"] == base and not st["place"]["p"]
+                      and bb in sx.exec_blocks}
+            alledges = {(u, v) for u in range(len(g.blocks)) for v in g.succ(u)}
+            left = C.all_paths_pass(g, [c.target], writes, rets, removed_edges=alledges - sx.exec_edges)
+            if left:
+                r.bad("strip|applied", "Gitignore::strip can return the candidate unstripped although the ignore file's directory is a "
+                      "prefix of it: a root spelled with a trailing slash (`rg pat sub/`) leaves no slash to find, and every anchored "
+                      "pattern of that directory's ignore file stops matching", fn=g, loc=c.loc, construct="strip")
+            else:
+                r.ok("strip|applied", "root is a prefix ⇒ the candidate is replaced by the remainder (a leading slash is optional)", fn=g)
